@@ -99,6 +99,10 @@ def gen(ctx):
         for v in {lo, hi, 0 if lo <= 0 else lo, min(hi, 2**63 - 1), min(hi, 2**63), max(lo, -2**63), max(lo, -2**63 - 1), min(hi, 2**64 - 1), 1, min(hi, 127)}:
             if lo <= v <= hi:
                 sd.append(f"so {k} {v}")
+                sd.append(f"vv {k} {v}")
+        for _ in range(40):
+            v = rng.randint(lo, hi) if rng.random() < 0.5 else max(lo, min(hi, rng.choice([2**63, 2**63 - 1, 2**64 - 1, -2**63, 0]) + rng.randint(-3, 3)))
+            sd.append(f"vv {k} {v}")
         for v in [0, 1, -1, 127, 128, -128, -129, 255, 256, 32767, 32768, -32768, -32769, 65535, 65536, 2**31 - 1, 2**31, -2**31, -2**31 - 1,
                   2**32 - 1, 2**32, 2**63 - 1, -2**63, 2**63, -2**63 - 1]:
             sd.append(f"de {k} {v}")
@@ -114,6 +118,7 @@ def run(ctx):
     audit(ctx, "TomlVerif.Props.C11", "TomlVerif/Props/C11.lean")
     if ctx.tier == "thorough":
         leanchecker(ctx, "TomlVerif.Props.C11")
+    extra_props(ctx, ["C11Serde"])
     tvh = cargo_build(ctx)
     if tvh is None:
         ctx.violation("harness does not build against /repo", {"unchecked": "cargo build"}, concrete=False)
@@ -187,6 +192,13 @@ def run(ctx):
                 want = "err"
             if i != want:
                 bad = f"deserializing {v} into {p[1]}: {i}, expected {want}"
+        elif p[0] == "vv":
+            v = int(p[2])
+            want = f"ok:{v}" if -2**63 <= v < 2**63 else "err"
+            if p[1] in ("i128", "u128") and i == "err":
+                want = "err"
+            if i != want:
+                bad = f"a {p[1]} {v} handed to toml::Value / toml::Table by a foreign serde deserializer: {i}, expected {want} (exact or an error, never wrapped)"
         if bad:
             ctx.violation(f"{c[:120]}: {bad}", {"mode": "c11", "case": c, "impl": i, "model": m, "witness": c})
         if i != m:
@@ -199,7 +211,7 @@ def run(ctx):
             ctx.violation(f"obligation no longer checks: {n}", {"unchecked": n, "detail": d[:1500], "searched": f"{len(cases)} cases"}, concrete=False)
     ctx.cov.update({
         "evaluations": len(cases), "distinct_nontrivial": len(set(cases)) - 10,
-        "rule": "i64: all +-2^k+-1, +-10^k+-1, extremes, random bit patterns; literals: range-edge values in bases 2/8/10/16 with signs, underscores, leading zeros, malformed shapes, float overflow/underflow edges with both signs, halfway cases, random mantissa/exponent; f64/f32: exponent-field and mantissa edges, specials, random bit patterns, random decimal exponents; serde: every width at its edges. non-trivial = all but the ten single-digit cases",
+        "rule": "i64: all +-2^k+-1, +-10^k+-1, extremes, random bit patterns; literals: range-edge values in bases 2/8/10/16 with signs, underscores, leading zeros, malformed shapes, float overflow/underflow edges with both signs, halfway cases, random mantissa/exponent; f64/f32: exponent-field and mantissa edges, specials, random bit patterns, random decimal exponents; serde: every width at its edges, serializing, reading, and handed to toml::Value / toml::Table by serde's own primitive deserializers (a foreign deserializer: visit_u64 etc.). non-trivial = all but the ten single-digit cases",
         "samples": [icases[3], unh(lcases[40][2:]).decode(), fcases[10], gcases[5], sd[7]],
         "literal_outcomes": hist, "counts": {"i64": len(icases), "literals": len(lcases), "f64": len(fcases), "f32": len(gcases), "serde": len(sd)},
         "traces_validated_against_impl": len(cases), "disagreements": ndis,
